@@ -1,0 +1,153 @@
+//go:build verif
+
+// Contracts for the deductive verifier in /verif (comment-only; compiled only with -tags verif).
+// Syntax: see /verif/DESIGN.md section 3.  Labels name obligations; [Cxx] tags map them to properties.
+package common
+
+//@ import interval "github.com/np-guard/models/pkg/interval"
+
+// ---------------------------------------------------------------------------------------------
+// PortSet
+// ---------------------------------------------------------------------------------------------
+
+//@ pred wfPS(p *PortSet) = p != nil && allocated(p) && p.Ports != nil && allocated(p.Ports)
+//@     && p.NamedPorts != nil && allocated(p.NamedPorts) && p.ExcludedNamedPorts != nil && allocated(p.ExcludedNamedPorts)
+//@     && p.NamedPorts != p.ExcludedNamedPorts
+//@     && (forall s string :: {s in p.NamedPorts} s in p.NamedPorts ==> p.NamedPorts[s])
+//@     && (forall s string :: {s in p.ExcludedNamedPorts} s in p.ExcludedNamedPorts ==> p.ExcludedNamedPorts[s])
+
+//@ pred sepPS(a *PortSet, b *PortSet) = a != b && a.Ports != b.Ports
+//@     && a.NamedPorts != b.NamedPorts && a.NamedPorts != b.ExcludedNamedPorts
+//@     && a.ExcludedNamedPorts != b.NamedPorts && a.ExcludedNamedPorts != b.ExcludedNamedPorts
+
+//@ pred freshPS(p *PortSet) = fresh(p) && fresh(p.Ports) && fresh(p.NamedPorts) && fresh(p.ExcludedNamedPorts)
+
+//@ pred fullRange(p *PortSet) = forall n int :: {iset(p.Ports)[n]} (1 <= n && n <= 65535) ==> iset(p.Ports)[n]
+//@ pred inRange(p *PortSet) = forall n int :: {iset(p.Ports)[n]} iset(p.Ports)[n] ==> (1 <= n && n <= 65535)
+//@ pred noNums(p *PortSet) = forall n int :: {iset(p.Ports)[n]} !iset(p.Ports)[n]
+//@ pred noNames(p *PortSet) = forall s string :: {s in p.NamedPorts} !(s in p.NamedPorts)
+//@ pred noExcl(p *PortSet) = forall s string :: {s in p.ExcludedNamedPorts} !(s in p.ExcludedNamedPorts)
+
+//@ func MakePortSet
+//@   ensures [C11,C05] wf: wfPS(res) && freshPS(res)
+//@   ensures [C11,C05] nums: forall n int :: {iset(res.Ports)[n]} iset(res.Ports)[n] == (all && 1 <= n && n <= 65535)
+//@   ensures [C11] names: noNames(res) && noExcl(res)
+
+//@ func (*PortSet).Equal
+//@   requires wfPS(p) && wfPS(other)
+//@   ensures [C11] eq: res == (iset(p.Ports) == iset(other.Ports) && dom(p.NamedPorts) == dom(other.NamedPorts)
+//@                             && dom(p.ExcludedNamedPorts) == dom(other.ExcludedNamedPorts))
+
+//@ func (*PortSet).IsEmpty
+//@   requires wfPS(p)
+//@   ensures [C11] empty: res == (noNums(p) && noNames(p))
+
+//@ func (*PortSet).Copy
+//@   requires wfPS(p)
+//@   ensures [C11] wf: wfPS(res) && freshPS(res)
+//@   ensures [C11] same: iset(res.Ports) == iset(p.Ports) && dom(res.NamedPorts) == dom(p.NamedPorts)
+//@                       && dom(res.ExcludedNamedPorts) == dom(p.ExcludedNamedPorts)
+//@   loop 1:
+//@     invariant sub: forall s string :: {seen(s)} seen(s) ==> s in p.NamedPorts
+//@     invariant names: forall s string :: {s in res.NamedPorts} (s in res.NamedPorts) == seen(s)
+//@     invariant vals: forall s string :: {s in res.NamedPorts} s in res.NamedPorts ==> res.NamedPorts[s]
+//@     invariant excl: noExcl(res)
+//@   loop 2:
+//@     invariant sub: forall s string :: {seen(s)} seen(s) ==> s in p.ExcludedNamedPorts
+//@     invariant names: dom(res.NamedPorts) == dom(p.NamedPorts)
+//@     invariant vals: forall s string :: {s in res.NamedPorts} s in res.NamedPorts ==> res.NamedPorts[s]
+//@     invariant excl: forall s string :: {s in res.ExcludedNamedPorts} (s in res.ExcludedNamedPorts) == seen(s)
+//@     invariant exclvals: forall s string :: {s in res.ExcludedNamedPorts} s in res.ExcludedNamedPorts ==> res.ExcludedNamedPorts[s]
+
+//@ func (*PortSet).AddPort
+//@   requires wfPS(p)
+//@   modifies p.NamedPorts[*], p.ExcludedNamedPorts[*], iset { r | r == p.Ports }
+//@   ensures [C11] wf: wfPS(p)
+//@   ensures [C11] named: port.Type == intstr.String ==> iset(p.Ports) == old(iset(p.Ports))
+//@         && (forall s string :: {s in p.NamedPorts} (s in p.NamedPorts) == (old(s in p.NamedPorts) || s == port.StrVal))
+//@         && (forall s string :: {s in p.ExcludedNamedPorts} (s in p.ExcludedNamedPorts) == (old(s in p.ExcludedNamedPorts) && s != port.StrVal))
+//@   ensures [C11] numeric: port.Type != intstr.String ==> dom(p.NamedPorts) == old(dom(p.NamedPorts))
+//@         && dom(p.ExcludedNamedPorts) == old(dom(p.ExcludedNamedPorts))
+//@         && (forall n int :: {iset(p.Ports)[n]} iset(p.Ports)[n] == (old(iset(p.Ports)[n]) || n == port.IntVal))
+
+//@ func (*PortSet).RemovePort
+//@   requires wfPS(p)
+//@   modifies p.NamedPorts[*], p.ExcludedNamedPorts[*], iset { r | r == p.Ports }
+//@   ensures [C11] wf: wfPS(p)
+//@   ensures [C11] named: port.Type == intstr.String ==> iset(p.Ports) == old(iset(p.Ports))
+//@         && (forall s string :: {s in p.NamedPorts} (s in p.NamedPorts) == (old(s in p.NamedPorts) && s != port.StrVal))
+//@         && (forall s string :: {s in p.ExcludedNamedPorts} (s in p.ExcludedNamedPorts) == (old(s in p.ExcludedNamedPorts) || s == port.StrVal))
+//@   ensures [C11] numeric: port.Type != intstr.String ==> dom(p.NamedPorts) == old(dom(p.NamedPorts))
+//@         && dom(p.ExcludedNamedPorts) == old(dom(p.ExcludedNamedPorts))
+//@         && (forall n int :: {iset(p.Ports)[n]} iset(p.Ports)[n] == (old(iset(p.Ports)[n]) && n != port.IntVal))
+
+//@ func (*PortSet).AddPortRange
+//@   requires wfPS(p)
+//@   modifies iset { r | r == p.Ports }
+//@   ensures [C11] wf: wfPS(p)
+//@   ensures [C11] nums: forall n int :: {iset(p.Ports)[n]} iset(p.Ports)[n] == (old(iset(p.Ports)[n]) || (minPort <= n && n <= maxPort))
+
+//@ func (*PortSet).Union
+//@   requires wfPS(p) && wfPS(other) && sepPS(p, other)
+//@   modifies p.Ports, p.NamedPorts[*], p.ExcludedNamedPorts[*]
+//@   ensures [C11] wf: wfPS(p) && fresh(p.Ports) && p.NamedPorts == old(p.NamedPorts) && p.ExcludedNamedPorts == old(p.ExcludedNamedPorts)
+//@   ensures [C11] nums: forall n int :: {iset(p.Ports)[n]} iset(p.Ports)[n] == (old(iset(p.Ports)[n]) || iset(other.Ports)[n])
+//@   ensures [C11] names: forall s string :: {s in p.NamedPorts} (s in p.NamedPorts) == (old(s in p.NamedPorts) || s in other.NamedPorts)
+//@   ensures [C11] excl: forall s string :: {s in p.ExcludedNamedPorts} (s in p.ExcludedNamedPorts) ==
+//@         ((old(s in p.ExcludedNamedPorts) && !(s in other.NamedPorts)) || (s in other.ExcludedNamedPorts && !(s in p.NamedPorts)))
+//@   loop 1:
+//@     invariant sub: forall s string :: {seen(s)} seen(s) ==> s in other.NamedPorts
+//@     invariant names: forall s string :: {s in p.NamedPorts} (s in p.NamedPorts) == (old(s in p.NamedPorts) || seen(s))
+//@     invariant vals: forall s string :: {s in p.NamedPorts} s in p.NamedPorts ==> p.NamedPorts[s]
+//@     invariant excl: forall s string :: {s in p.ExcludedNamedPorts} (s in p.ExcludedNamedPorts) == (old(s in p.ExcludedNamedPorts) && !seen(s))
+//@     invariant exclvals: forall s string :: {s in p.ExcludedNamedPorts} s in p.ExcludedNamedPorts ==> p.ExcludedNamedPorts[s]
+//@   loop 2:
+//@     invariant sub: forall s string :: {seen(s)} seen(s) ==> s in other.ExcludedNamedPorts
+//@     invariant names: forall s string :: {s in p.NamedPorts} (s in p.NamedPorts) == (old(s in p.NamedPorts) || s in other.NamedPorts)
+//@     invariant vals: forall s string :: {s in p.NamedPorts} s in p.NamedPorts ==> p.NamedPorts[s]
+//@     invariant excl: forall s string :: {s in p.ExcludedNamedPorts} (s in p.ExcludedNamedPorts) ==
+//@         ((old(s in p.ExcludedNamedPorts) && !(s in other.NamedPorts)) || (seen(s) && !(s in p.NamedPorts)))
+//@     invariant exclvals: forall s string :: {s in p.ExcludedNamedPorts} s in p.ExcludedNamedPorts ==> p.ExcludedNamedPorts[s]
+
+//@ func (*PortSet).ContainedIn
+//@   requires wfPS(p) && wfPS(other)
+//@   ensures [C11,C07] numeric: res ==> (forall n int :: {iset(p.Ports)[n]} iset(p.Ports)[n] ==> iset(other.Ports)[n])
+//@   ensures [C11,C07] named: res ==> (forall s string :: {s in p.NamedPorts} s in p.NamedPorts ==> (s in other.NamedPorts || fullRange(other)))
+//@   ensures [C11] complete: ((forall n int :: {iset(p.Ports)[n]} iset(p.Ports)[n] ==> iset(other.Ports)[n])
+//@         && (forall s string :: {s in p.NamedPorts} s in p.NamedPorts ==> s in other.NamedPorts)) ==> res
+
+//@ func (*PortSet).Intersection
+//@   requires wfPS(p) && wfPS(other)
+//@   modifies p.Ports
+//@   ensures [C11] wf: wfPS(p) && fresh(p.Ports)
+//@   ensures [C11] nums: forall n int :: {iset(p.Ports)[n]} iset(p.Ports)[n] == (old(iset(p.Ports)[n]) && iset(other.Ports)[n])
+
+//@ func (*PortSet).IsAll
+//@   requires wfPS(p)
+//@   ensures [C11,C05] all: res == ((forall n int :: {iset(p.Ports)[n]} iset(p.Ports)[n] == (1 <= n && n <= 65535)) && noNames(p) && noExcl(p))
+
+//@ func (*PortSet).Contains
+//@   requires wfPS(p)
+//@   ensures [C11] mem: res == iset(p.Ports)[port]
+
+//@ func (*PortSet).subtract
+//@   requires wfPS(p) && wfPS(other) && sepPS(p, other)
+//@   modifies p.Ports, p.NamedPorts[*], p.ExcludedNamedPorts[*]
+//@   ensures [C11] wf: wfPS(p) && fresh(p.Ports) && p.NamedPorts == old(p.NamedPorts) && p.ExcludedNamedPorts == old(p.ExcludedNamedPorts)
+//@   ensures [C11] nums: forall n int :: {iset(p.Ports)[n]} iset(p.Ports)[n] == (old(iset(p.Ports)[n]) && !iset(other.Ports)[n])
+//@   ensures [C11] names: forall s string :: {s in p.NamedPorts} (s in p.NamedPorts) == (old(s in p.NamedPorts) && !(s in other.NamedPorts))
+//@   ensures [C11] excl: forall s string :: {s in p.ExcludedNamedPorts} (s in p.ExcludedNamedPorts) == (old(s in p.ExcludedNamedPorts) || s in other.NamedPorts)
+
+//@ func (*PortSet).subtractNamedPorts
+//@   requires wfPS(p) && otherNamedPorts != nil && allocated(otherNamedPorts)
+//@   requires otherNamedPorts != p.NamedPorts && otherNamedPorts != p.ExcludedNamedPorts
+//@   modifies p.NamedPorts[*], p.ExcludedNamedPorts[*]
+//@   ensures [C11] wf: wfPS(p)
+//@   ensures [C11] names: forall s string :: {s in p.NamedPorts} (s in p.NamedPorts) == (old(s in p.NamedPorts) && !(s in otherNamedPorts))
+//@   ensures [C11] excl: forall s string :: {s in p.ExcludedNamedPorts} (s in p.ExcludedNamedPorts) == (old(s in p.ExcludedNamedPorts) || s in otherNamedPorts)
+//@   loop 1:
+//@     invariant sub: forall s string :: {seen(s)} seen(s) ==> s in otherNamedPorts
+//@     invariant names: forall s string :: {s in p.NamedPorts} (s in p.NamedPorts) == (old(s in p.NamedPorts) && !seen(s))
+//@     invariant vals: forall s string :: {s in p.NamedPorts} s in p.NamedPorts ==> p.NamedPorts[s]
+//@     invariant excl: forall s string :: {s in p.ExcludedNamedPorts} (s in p.ExcludedNamedPorts) == (old(s in p.ExcludedNamedPorts) || seen(s))
+//@     invariant exclvals: forall s string :: {s in p.ExcludedNamedPorts} s in p.ExcludedNamedPorts ==> p.ExcludedNamedPorts[s]
